@@ -10,6 +10,7 @@ import (
 	"errors"
 	"io"
 
+	"github.com/cnotch/ipchub/utils/vhook"
 	"github.com/pion/rtp"
 )
 
@@ -126,6 +127,7 @@ func (p *Packet) Write(w io.Writer, channelConfig []int) error {
 	}
 
 	// 写包数据部分
+	vhook.At("frame.prefix", w)
 	if _, err := w.Write(p.Data); err != nil {
 		return err
 	}
